@@ -1,7 +1,7 @@
 ----------------------------- MODULE LineMapGen -----------------------------
 (* generator of {offset |-> line} mappings with strictly increasing offsets for C19: every offset-gap class  *)
 (* (needing 0, 1 or 2 continuation entries) x every line-gap class (beyond +-127 / 255, decreasing lines).   *)
-(* The mapping always starts at offset 0.  Each complete mapping is exported; the frozen table xdis     *)
+(* The mapping starts at offset 0 (or, for 3.10 only, later).  Each complete mapping is exported; the frozen table xdis     *)
 (* produces for it is decoded by the reader machine of LineTables.tla and must give the mapping back.        *)
 EXTENDS Integers, Sequences, TLC, Json, IOUtils, TLCExt
 Cfg == JsonDeserialize(IOEnv.GEN_CFG)            \* [maxlen, export, rich]
@@ -14,7 +14,9 @@ LineGaps == IF Cfg.rich = 1 THEN {0, 1, 2, 127, 128, 129, 254, 255, 256, 257, 40
 (* line gap 0: two consecutive entries with the same line (a statement spread over two entries); the line-start readers report  *)
 (* a start only where the line changes, so the mapping expected back is the given one without such repeats (harness)          *)
 (* the line at offset 0 is co_firstlineno, or later (a decorated function: the def line is above the first statement) *)
-Init == m \in { << <<0, First>> >>, << <<0, First + 2>> >> } /\ done = FALSE
+(* ... and a mapping may begin after offset 0 (used for the 3.10 range table only, where the code before it simply has no line): *)
+(* 300 needs a continuation entry for the leading no-line range                                                                   *)
+Init == m \in { << <<0, First>> >>, << <<0, First + 2>> >>, << <<300, First + 2>> >> } /\ done = FALSE
 Add == /\ ~done /\ Len(m) <= Cfg.maxlen
        /\ \E og \in OffGaps, lg \in LineGaps :
             m' = Append(m, <<m[Len(m)][1] + og, m[Len(m)][2] + lg>>)
